@@ -11,6 +11,7 @@ package ratelimiter
 import (
 	"fmt"
 	"net/http"
+	"strings"
 	"testing"
 	"testing/synctest"
 	"time"
@@ -27,7 +28,16 @@ func init() { logger.InitNop() }
 
 const c09fP = 10 * time.Millisecond
 
-func c09fSpec(limit int, timeout string, second bool) string {
+// explicitRef: the /limited rule names its policy itself; defaultRef: the spec-wide defaultPolicyRef
+func c09fSpec(limit int, timeout string, second bool, explicitRef bool, defaultRef string) string {
+	y := c09fSpec0(limit, timeout, second)
+	if explicitRef {
+		y = strings.Replace(y, "    prefix: /limited\n", "    prefix: /limited\n  policyRef: pol\n", 1)
+	}
+	return strings.Replace(y, "defaultPolicyRef: pol\n", "defaultPolicyRef: "+defaultRef+"\n", 1)
+}
+
+func c09fSpec0(limit int, timeout string, second bool) string {
 	y := fmt.Sprintf(`
 name: rl
 kind: RateLimiter
@@ -104,57 +114,63 @@ func TestVerifC09filter(t *testing.T) {
 		var jobs []mc.Job
 		for _, limit := range []int{1, 2} {
 			for _, timeout := range []string{"0ms", "10ms"} {
-				limit, timeout := limit, timeout
-				run := func(c *mc.Ctx) {
-					var steps []c09fStep
-					for i := 0; i < L; i++ {
-						steps = append(steps, c09fStep{gaps[c.Choose(len(gaps), "gap")], urls[c.Choose(len(urls), "url")]})
-					}
-					// reload point: 0 = never, k = before step k (1..L-1); kind: unchanged rule (other url list may change)
-					rp := c.Choose(L, "reload-before-step")
-					addSecond := c.Choose(2, "reload-adds-unrelated-url") == 1
-					runHist := func(reloadAt int) []c09fObs {
-						f := c09fNew(c09fSpec(limit, timeout, false))
-						f.Init()
-						var obs []c09fObs
-						for i, s := range steps {
-							if reloadAt > 0 && i == reloadAt {
-								g2 := c09fNew(c09fSpec(limit, timeout, addSecond))
-								g2.Inherit(f)
-								f = g2
+				for _, explicit := range []bool{false, true} {
+					limit, timeout, explicit := limit, timeout, explicit
+					run := func(c *mc.Ctx) {
+						var steps []c09fStep
+						for i := 0; i < L; i++ {
+							steps = append(steps, c09fStep{gaps[c.Choose(len(gaps), "gap")], urls[c.Choose(len(urls), "url")]})
+						}
+						// reload point: 0 = never, k = before step k (1..L-1); kind: unchanged rule (other url list may change)
+						rp := c.Choose(L, "reload-before-step")
+						addSecond := c.Choose(2, "reload-adds-unrelated-url") == 1
+						newDefault := "pol"
+						if explicit && c.Choose(2, "reload-changes-defaultPolicyRef") == 1 {
+							newDefault = "other" // the /limited rule and its policy stay exactly the same
+						}
+						runHist := func(reloadAt int) []c09fObs {
+							f := c09fNew(c09fSpec(limit, timeout, false, explicit, "pol"))
+							f.Init()
+							var obs []c09fObs
+							for i, s := range steps {
+								if reloadAt > 0 && i == reloadAt {
+									g2 := c09fNew(c09fSpec(limit, timeout, addSecond, explicit, newDefault))
+									g2.Inherit(f)
+									f = g2
+								}
+								time.Sleep(s.gap)
+								obs = append(obs, c09fDo(f, s.url))
 							}
-							time.Sleep(s.gap)
-							obs = append(obs, c09fDo(f, s.url))
+							return obs
 						}
-						return obs
-					}
-					// align both runs on the same phase of the virtual clock
-					base := runHist(0)
-					for i, o := range base {
-						s := steps[i]
-						c.Note("after %v GET %s -> %d %q wait %v", s.gap, s.url, o.status, o.result, o.wait)
-						if s.url == "/free" && (o.result != "" || o.wait != 0 || o.status == 429) {
-							c.Failf("unmatched-url-limited", "request to %s (matches no rule) got result %q status %d wait %v", s.url, o.result, o.status, o.wait)
+						// align both runs on the same phase of the virtual clock
+						base := runHist(0)
+						for i, o := range base {
+							s := steps[i]
+							c.Note("after %v GET %s -> %d %q wait %v", s.gap, s.url, o.status, o.result, o.wait)
+							if s.url == "/free" && (o.result != "" || o.wait != 0 || o.status == 429) {
+								c.Failf("unmatched-url-limited", "request to %s (matches no rule) got result %q status %d wait %v", s.url, o.result, o.status, o.wait)
+							}
+							if o.result == "rateLimited" && o.status != 429 {
+								c.Failf("rejected-without-429", "result rateLimited with status %d", o.status)
+							}
+							if o.result != "rateLimited" && o.status == 429 {
+								c.Failf("429-without-result", "status 429 with result %q", o.result)
+							}
+							c.AddOutcome(fmt.Sprintf("%s%d", o.result, o.wait/c09fP))
 						}
-						if o.result == "rateLimited" && o.status != 429 {
-							c.Failf("rejected-without-429", "result rateLimited with status %d", o.status)
-						}
-						if o.result != "rateLimited" && o.status == 429 {
-							c.Failf("429-without-result", "status 429 with result %q", o.result)
-						}
-						c.AddOutcome(fmt.Sprintf("%s%d", o.result, o.wait/c09fP))
-					}
-					if rp > 0 {
-						with := runHist(rp)
-						for i := range base {
-							if base[i] != with[i] {
-								c.Failf("reload-changes-limiter-state", "limit %d timeout %s: history %v; reload of an unchanged rule before step %d changed step %d: without reload %+v, with reload %+v",
-									limit, timeout, steps, rp+1, i+1, base[i], with[i])
+						if rp > 0 {
+							with := runHist(rp)
+							for i := range base {
+								if base[i] != with[i] {
+									c.Failf("reload-changes-limiter-state", "limit %d timeout %s: history %v; reload of an unchanged rule before step %d changed step %d: without reload %+v, with reload %+v",
+										limit, timeout, steps, rp+1, i+1, base[i], with[i])
+								}
 							}
 						}
 					}
+					jobs = append(jobs, mc.ExploreJob(mc.Options{Job: fmt.Sprintf("filter/limit%d-timeout%s-explicitref%v", limit, timeout, explicit), MaxDev: -1}, run))
 				}
-				jobs = append(jobs, mc.ExploreJob(mc.Options{Job: fmt.Sprintf("filter/limit%d-timeout%s", limit, timeout), MaxDev: -1}, run))
 			}
 		}
 		mc.RunJobs("C09", jobs)
